@@ -57,6 +57,7 @@ type Res struct {
 	Err     string   `json:"err,omitempty"`
 	Trace   []string `json:"trace,omitempty"`
 	Results []string `json:"results,omitempty"`
+	ChainMax uint64 `json:"chain_max,omitempty"` // max over emit events of the memory accounted along the context chain below the root
 	Markers []string `json:"markers,omitempty"` // caught(kind) calls: Lua code observed a failure
 	Ticks   int      `json:"ticks"`
 	Used    uint64   `json:"used"`
@@ -78,6 +79,7 @@ type machine struct {
 	markers []string
 	kept    []*rt.Thread
 	cleanup func()
+	chainMax uint64
 }
 
 func (m *machine) Close() {
@@ -111,6 +113,22 @@ func newMachine(full bool) *machine {
 		m.Ticks++
 		return c.Next(), nil
 	}, 1, false)
+	// emit as host.Machine defines it, plus: the memory accounted at this
+	// moment to the outermost limited context, i.e. the sum of used.memory over
+	// the chain of contexts below the root (a nested context's usage is only
+	// charged to its parent when it ends)
+	emit := r.SetEnvGoFunc(env, "emit", func(t *rt.Thread, c *rt.GoCont) (rt.Cont, error) {
+		m.Trace = append(m.Trace, strings.Join(m.Canon.Values(c.Etc()), ","))
+		var sum uint64
+		for ctx := t.RuntimeContext(); ctx != nil && ctx.Parent() != nil; ctx = ctx.Parent() {
+			sum += ctx.UsedResources().Memory
+		}
+		if sum > m.chainMax {
+			m.chainMax = sum
+		}
+		return c.Next(), nil
+	}, 0, true)
+	rt.SolemnlyDeclareCompliance(rt.ComplyCpuSafe|rt.ComplyMemSafe|rt.ComplyIoSafe|rt.ComplyTimeSafe, emit)
 	keep := r.SetEnvGoFunc(env, "keep", func(t *rt.Thread, c *rt.GoCont) (rt.Cont, error) {
 		if c.NArgs() > 0 {
 			if th, ok := c.Arg(0).TryThread(); ok && th != r.MainThread() {
@@ -304,7 +322,7 @@ func runOn(m *machine, j *Job) (res Res) {
 			res.Err = "outside the call: " + firstLine(fmt.Sprint(p))
 		}
 	}()
-	m.Trace, m.Ticks, m.markers = nil, 0, nil
+	m.Trace, m.Ticks, m.markers, m.chainMax = nil, 0, nil, 0
 	if j.Pro != "" {
 		o := m.Exec("pro", j.Pro, nil, nil)
 		if o.Status != "ok" {
@@ -312,7 +330,7 @@ func runOn(m *machine, j *Job) (res Res) {
 			res.Err = "prologue failed: " + o.String()
 			return
 		}
-		m.Trace, m.Ticks, m.markers = nil, 0, nil
+		m.Trace, m.Ticks, m.markers, m.chainMax = nil, 0, nil, 0
 	}
 	u, err := compileOnce(j.Name, j.Src)
 	if err != nil {
@@ -349,6 +367,7 @@ func runOn(m *machine, j *Job) (res Res) {
 	res.Status, res.Err, res.Results = o.Status, o.Err, o.Results
 	res.Trace = append([]string(nil), o.Trace...)
 	res.Markers = append([]string(nil), m.markers...)
+	res.ChainMax = m.chainMax
 	res.Ticks = o.Ticks
 	res.Used = o.UsedMem
 	if hl, u := m.R.HardLimits(), m.R.UsedResources(); hl.Memory != 0 || u.Memory != 0 {
